@@ -762,7 +762,7 @@ func zeroOf(o types.Object) Aff {
 		return affK(0)
 	}
 	if o != nil {
-		return affAtom("zero:" + o.Name())
+		return affAtom("zero:" + varRoleName(o))
 	}
 	return affAtom("zero")
 }
